@@ -503,7 +503,7 @@ class Interp:
             # a property setter the rule asked to inline (listed as "<Class>.<property>")
             bkey = key.rpartition(".")[0]
             cls = self.types.get(bkey)
-            if cls and f"{cls}.{t.attr}" in self.inline and self.idx.has_cls(cls):
+            if cls and self._inl(cls, t.attr) and self.idx.has_cls(cls):
                 for c in self.idx.mro(cls):
                     pr = c.properties.get(t.attr)
                     if pr and "set" in pr:
@@ -658,7 +658,7 @@ class Interp:
                 return getattr(_string, e.attr)  # constants of the stdlib `string` module
             # property getters of inlinable classes
             cls = self.types.get(base.text)
-            if cls and f"{cls}.{e.attr}" in self.inline:
+            if cls and self._inl(cls, e.attr):
                 ci = self.idx.cls(cls) if self.idx.has_cls(cls) else None
                 if ci:
                     for c in self.idx.mro(cls):
@@ -672,7 +672,7 @@ class Interp:
             if ok:
                 return v
             cls = self.types.get(base.name)
-            if cls and f"{cls}.{e.attr}" in self.inline and self.idx.has_cls(cls):
+            if cls and self._inl(cls, e.attr) and self.idx.has_cls(cls):
                 for c in self.idx.mro(cls):
                     pr = c.properties.get(e.attr)
                     if pr and "get" in pr:
@@ -719,6 +719,16 @@ class Interp:
                     parts.append(str(x))
         s = "".join(parts)
         return s if concrete else Residual("f'" + s + "'")
+
+    def _inl(self, cls, name):
+        """is <cls>.<name> to be inlined?  listed under the class itself or under the base class that defines it"""
+        if f"{cls}.{name}" in self.inline:
+            return True
+        if self.idx is not None and self.idx.has_cls(cls):
+            for c in self.idx.mro(cls):
+                if f"{c.name}.{name}" in self.inline and (name in c.methods or name in c.properties):
+                    return True
+        return False
 
     def str_of(self, x):
         """str() of an abstract object whose class is known and whose __str__ the rule asked to inline: interpret that __str__"""
@@ -972,7 +982,7 @@ class Interp:
         if h is not None:
             return h(self, e, recv, args, kwargs)
         # inlining
-        if recv is not None and isinstance(recv, Obj) and self.types.get(recv.name) and f"{self.types[recv.name]}.{meth}" in self.inline:
+        if recv is not None and isinstance(recv, Obj) and self.types.get(recv.name) and self._inl(self.types[recv.name], meth):
             fi = self.idx.method(self.types[recv.name], meth)
             a = dict(kwargs)
             a["__pos__"] = args
@@ -985,7 +995,7 @@ class Interp:
                     a = dict(kwargs)
                     a["__pos__"] = args
                     return self.call_function(m0, a, recv.text)
-            if cls and (f"{cls}.{meth}" in self.inline):
+            if cls and self._inl(cls, meth):
                 fi = self.idx.method(cls, meth)
                 a = dict(kwargs)
                 a["__pos__"] = args
